@@ -1,5 +1,5 @@
 import Drivers.Wire
-import Model.Aggregate
+import Model.AggregateArray
 
 /-!
 Driver for C19.  A cell is a rational string or `null` (masked); a categorical row is a list of
@@ -12,6 +12,13 @@ rationals or `null`.  `ws` is a list of rationals or `null` (`weights=None`); `n
   entropy values of the rows / of `loc` supplied by the caller (`H` is a parameter of the model)
 * `{"op":"mode","ws":…,"n":n,"c":C,"rows":…}` → `counts, loc, unc, counts_unnormalised`
 * `{"op":"check","items":[{"k":…,"tol":…,…},…]}` → `res`: the verified checkers (`C19_checker`) on real outputs
+
+Instead of `cols` / `locs`+`scales` / `rows` a request may carry the member **arrays** as the code receives them
+(`Model/AggregateArray.lean`): `"arrs"` (and `"sarrs"`: the scale arrays of normal members), each
+`{"ma":bool,"mask":null|[bool…],"dtype":"int8"|…,"data":[rat…]}` (flattened; `data` = all stored values, also those
+under the mask), with `"size"` = number of entries per array.  The cells / rows are then derived by the model
+(`stackCells`, `stackNormal`: namespace selection and stacking) and the reply carries `"ma"`: whether the `np.ma`
+namespace is used (⇔ the outputs are `MaskedArray`s).
 -/
 
 open Lean DH.Wire DH.Aggregate
@@ -35,6 +42,28 @@ def ofRow : Row → Json
   | some l => ofRats l
 
 def ofCells (l : List Cell) : Json := .arr (l.map ofCell).toArray
+
+def jDType (s : String) : Except String DType :=
+  match s with
+  | "bool" => .ok .bool
+  | "int8" => .ok (.int 8) | "int16" => .ok (.int 16) | "int32" => .ok (.int 32) | "int64" => .ok (.int 64)
+  | "uint8" => .ok (.uint 8) | "uint16" => .ok (.uint 16) | "uint32" => .ok (.uint 32) | "uint64" => .ok (.uint 64)
+  | "float16" => .ok (.float 16) | "float32" => .ok (.float 32) | "float64" => .ok (.float 64)
+  | _ => .error s!"unknown dtype {s}"
+
+def jArr (j : Json) : Except String Arr := do
+  let ma ← jBool (← field j "ma")
+  let mask ← match fieldD j "mask" .null with
+    | .null => pure MaskRep.nomask
+    | m => do let bs ← jList jBool m; pure (MaskRep.bits bs)
+  let dtype ← jDType (← jStr (← field j "dtype"))
+  let data ← jList jRat (← field j "data")
+  return { ma, mask, dtype, data }
+
+def hasArrs (j : Json) : Bool :=
+  match fieldD j "arrs" .null with
+  | .null => false
+  | _ => true
 
 def jWeights (j : Json) : Except String (Option (List Rat)) :=
   match j with
@@ -92,28 +121,47 @@ def handle (j : Json) : Except String Json := do
   | .ok ws =>
   match op with
   | "mean" =>
-    let cols ← jList (jList jCell) (← field j "cols")
-    let outs := cols.map (meanAgg ws)
-    return Json.mkObj [("ok", true), ("err", .null),
+    let (outs, ma) ← if hasArrs j then do
+        let arrs ← jList jArr (← field j "arrs")
+        pure (meanArr ws (← jNat (← field j "size")) arrs, Json.bool (useMa arrs))
+      else do
+        let cols ← jList (jList jCell) (← field j "cols")
+        pure (cols.map (meanAgg ws), Json.null)
+    return Json.mkObj [("ok", true), ("err", .null), ("ma", ma),
       ("loc", ofCells (outs.map (·.loc))), ("var", ofCells (outs.map (·.var)))]
   | "normal" =>
-    let locs ← jList (jList jCell) (← field j "locs")
-    let scales ← jList (jList jCell) (← field j "scales")
-    let outs := (locs.zip scales).map (fun (l, s) => mixedNormal ws l s)
-    return Json.mkObj [("ok", true), ("err", .null),
+    let (locs, outs, ma) ← if hasArrs j then do
+        let arrs ← jList jArr (← field j "arrs")
+        let sarrs ← jList jArr (← field j "sarrs")
+        let size ← jNat (← field j "size")
+        pure (columns size (stackNormal arrs sarrs).1, normalArr ws size arrs sarrs,
+          Json.bool (useMa arrs && useMa sarrs))
+      else do
+        let locs ← jList (jList jCell) (← field j "locs")
+        let scales ← jList (jList jCell) (← field j "scales")
+        pure (locs, (locs.zip scales).map (fun (l, s) => mixedNormal ws l s), Json.null)
+    return Json.mkObj [("ok", true), ("err", .null), ("ma", ma),
       ("loc", ofCells (outs.map (·.loc))), ("var", ofCells (outs.map (·.var))),
       ("alea", ofCells (outs.map (·.aleaVar))), ("epi", ofCells (outs.map (·.epiVar))),
       ("epi_unweighted", ofCells (locs.map epiVarUnweighted))]
   | "cat" =>
     let c ← jNat (← field j "c")
-    let rows ← jList (jList jRow) (← field j "rows")
-    let outs := rows.map (mixedCategoricalConf c ws)
-    return Json.mkObj [("ok", true), ("err", .null),
+    let (outs, ma) ← if hasArrs j then do
+        let arrs ← jList jArr (← field j "arrs")
+        pure (catArr c ws ((← jNat (← field j "size")) / c) arrs, Json.bool (useMa arrs))
+      else do
+        let rows ← jList (jList jRow) (← field j "rows")
+        pure (rows.map (mixedCategoricalConf c ws), Json.null)
+    return Json.mkObj [("ok", true), ("err", .null), ("ma", ma),
       ("loc", .arr (outs.map (fun o => ofRow o.loc)).toArray), ("unc", ofCells (outs.map (·.unc))),
       ("alea", ofCells (outs.map (·.alea))), ("epi", ofCells (outs.map (·.epi)))]
   | "cat_entropy" =>
     let c ← jNat (← field j "c")
-    let rows ← jList (jList jRow) (← field j "rows")
+    let (rows, ma) ← if hasArrs j then do
+        let arrs ← jList jArr (← field j "arrs")
+        pure (rowColumns ((← jNat (← field j "size")) / c) c (stackCells arrs), Json.bool (useMa arrs))
+      else do
+        pure (← jList (jList jRow) (← field j "rows"), Json.null)
     let hloc ← jList jCell (← field j "hloc")
     let hrows ← jList (jList jCell) (← field j "hrows")
     let outs := (rows.zip (hloc.zip hrows)).map (fun (rs, hl, hr) =>
@@ -127,14 +175,18 @@ def handle (j : Json) : Except String Json := do
         | some v => v
         | none => hl.getD 0
       mixedCategoricalEntropy H c ws rs)
-    return Json.mkObj [("ok", true), ("err", .null),
+    return Json.mkObj [("ok", true), ("err", .null), ("ma", ma),
       ("loc", .arr (outs.map (fun o => ofRow o.loc)).toArray), ("unc", ofCells (outs.map (·.unc))),
       ("alea", ofCells (outs.map (·.alea))), ("epi", ofCells (outs.map (·.epi)))]
   | "mode" =>
     let c ← jNat (← field j "c")
-    let rows ← jList (jList jRow) (← field j "rows")
+    let (rows, ma) ← if hasArrs j then do
+        let arrs ← jList jArr (← field j "arrs")
+        pure (rowColumns ((← jNat (← field j "size")) / c) c (stackCells arrs), Json.bool (useMa arrs))
+      else do
+        pure (← jList (jList jRow) (← field j "rows"), Json.null)
     let outs := rows.map (modeAgg c ws)
-    return Json.mkObj [("ok", true), ("err", .null),
+    return Json.mkObj [("ok", true), ("err", .null), ("ma", ma),
       ("counts", .arr (outs.map (fun o => ofRow o.counts)).toArray),
       ("loc", .arr (outs.map (fun o => match o.loc with
         | some k => Json.num (JsonNumber.fromNat k)
